@@ -10,7 +10,9 @@
 //
 // KNOWN DEFECT (unrepaired, pinned by the unit tests): complex-input welch returns pxx in FFT order against a centred f.
 //   * sub-check complex_label asserts the property as stated and reports it as  welch-complex:fft-order-vs-centred-f ;
-//   * every other complex-input check compares in FFT order (behind the defect), counted as excluded:complex-axis-order.
+//   * every other complex-input check first tries the order announced by the returned f (the property-conform one, so a
+//     repaired library passes unchanged) and otherwise compares in FFT order (behind the defect), counted as
+//     excluded:complex-axis-order; anything that matches neither is a violation.
 #include "kit/num.h"
 #include <cfloat>
 #include <dsplib.h>
@@ -286,7 +288,7 @@ void welch_case(const Json& c, Out& o, bool real) {
     if (!check_sizes(got, g.nfft, real, pfx, o)) return;
     const Ref R = ld_welch(x, g.w, g.nov, g.nfft, g.psd);
     if (R.nseg != g.nseg) throw std::logic_error("harness: segment count of the reference differs from the generator's");
-    const std::vector<ld> ref = real ? R.one() : R.p2;   // complex: FFT order, i.e. behind the known axis defect
+    std::vector<ld> ref = real ? R.one() : R.p2;   // complex: FFT order, i.e. behind the known axis defect (see below)
     const int m = int(ref.size());
 
     // non-negative (and not NaN)
@@ -298,6 +300,23 @@ void welch_case(const Json& c, Out& o, bool real) {
     for (ld v : ref) mx = std::max(mx, v);
     const ld tol = rel_tol(g) * mx;
     ld worst = 0; int wk = 0;
+    bool as_labelled = false;
+    if (!real) {
+        // The property-conform order is the one the returned f announces (value i belongs to frequency f[i] mod 1).  A
+        // library that honours it passes here; the known defect (FFT order against a centred f) is compared in FFT order.
+        std::vector<ld> byf(static_cast<size_t>(m));
+        bool ok = true;
+        for (int i = 0; i < m && ok; ++i) {
+            const double q = got.f[i] * g.nfft;
+            ok = std::isfinite(q) && std::fabs(q - std::round(q)) < 1e-6 && std::fabs(q) <= 4.0 * g.nfft;
+            if (ok) byf[size_t(i)] = R.p2[size_t(((long(std::llround(q)) % g.nfft) + g.nfft) % g.nfft)];
+        }
+        if (ok) {
+            ld wl = 0;
+            for (int k = 0; k < m; ++k) wl = std::max(wl, std::fabs(ld(got.pxx[k]) - byf[size_t(k)]));
+            if (wl <= tol) { as_labelled = true; ref = byf; }
+        }
+    }
     for (int k = 0; k < m; ++k) { ld e = std::fabs(ld(got.pxx[k]) - ref[size_t(k)]); if (e > worst) { worst = e; wk = k; } }
     o.metric("value err/tol", tol > 0 ? double(worst / tol) : (worst == 0 ? 0.0 : 1e300));
     if (!(worst <= tol)) {
@@ -324,7 +343,7 @@ void welch_case(const Json& c, Out& o, bool real) {
             break;
         }
     }
-    if (!real) o.label("excluded:complex-axis-order");
+    if (!real) o.label(as_labelled ? "complex-order:as-labelled-by-f" : "excluded:complex-axis-order");
     geo_labels(g, o);
     o.label(std::string("input:") + xname(cls));
     if (mx > 0 && ((g.nseg >= 2 && g.nov > 0) || offbin))
@@ -440,7 +459,8 @@ static void pk_check(const Json& c, Out& o) {
     auto Wa = [&](int m) { return std::abs(W[size_t(((m % g.nfft) + g.nfft) % g.nfft)]) / W0; };
     ld MS, rimg = 0, ub = 0;
     const int m = real ? g.nfft / 2 + 1 : g.nfft;
-    const int idx = real ? k0 : ((k0 % g.nfft) + g.nfft) % g.nfft;   // complex: FFT order (behind the known axis defect)
+    int idx = real ? k0 : ((k0 % g.nfft) + g.nfft) % g.nfft;   // complex: FFT order (behind the known axis defect), unless ...
+    bool as_labelled = false;
     if (real && !edge) {
         MS = ld(A) * A / 2;
         rimg = Wa(2 * k0);
@@ -455,6 +475,13 @@ static void pk_check(const Json& c, Out& o) {
     }
     const ld b0 = 2 * rimg + rimg * rimg;                       // allowed relative deviation at the tone's own bin
     const ld rnd = rel_tol(g) * std::max<ld>(1, ub);  // rounding, relative to MS
+    if (!real) {   // ... the entry that f labels with the tone's frequency (mod 1) holds the level: the property-conform order
+        for (int i = 0; i < m; ++i) {
+            double d = got.f[i] * g.nfft - k0;
+            d -= g.nfft * std::floor(d / g.nfft + 0.5);
+            if (std::fabs(d) < 1e-6 && std::fabs(ld(got.pxx[i]) / MS - 1) <= b0 + rnd) { idx = i; as_labelled = true; break; }
+        }
+    }
     const ld v0 = ld(got.pxx[idx]) / MS;
     const ld dev = std::fabs(v0 - 1);
     o.metric("tone-bin (dev - image bound)/rounding tol", double(std::max<ld>(0, dev - b0) / rnd));
@@ -467,7 +494,7 @@ static void pk_check(const Json& c, Out& o) {
     o.metric("peak outside [lo,hi] (0 = inside)", pkv < lo ? double((lo - pkv) / rnd) : pkv > hi ? double((pkv - hi) / rnd) : 0.0);
     if (!(pkv >= lo && pkv <= hi))
         o.fail(std::string("welch-peak:max:") + kind, fmt("power scaling: max(pxx)/mean-square = %.17Lg outside [%.17Lg, %.17Lg] (nfft=%d winlen=%d overlap=%d N=%ld %s k0=%d)", pkv, lo, hi, g.nfft, g.L, g.nov, g.N, g.wlabel.c_str(), k0));
-    if (!real) o.label("excluded:complex-axis-order");
+    if (!real) o.label(as_labelled ? "complex-order:as-labelled-by-f" : "excluded:complex-axis-order");
     geo_labels(g, o);
     o.label(std::string("tone:") + kind);
     const bool sharp = b0 <= 0.01L && ub <= 1.01L;   // the statement "peak = mean-square" is then decided to 1 %
